@@ -55,11 +55,13 @@ def run_case(case: dict) -> dict:
 
 def defect_embeddings_for(i: int, doc: dict, tier: str) -> list[str]:
     """embeddings under which the injected documents are loaded: all of them, except that in the quick tier
-    documents with several modules get a rotating exact / inexact / offset triple (every module variant also
+    documents with several modules get a rotating pair out of exact / inexact / offset (every module variant also
     occurs alone, with all its injections under all eight)"""
     if tier == "thorough" or len(doc["mods"]) == 1:
         return list(ALL)
-    return [["int", "flt", "half", "big"][i % 4], ["dec", "third", "tiny"][i % 3], "off"]
+    # two of: an exact step, an inexact step, the offset embedding -- rotating with the document's index
+    trio = [["int", "flt", "half", "big"][i % 4], ["dec", "third", "tiny"][i % 3], "off"]
+    return [trio[i % 3], trio[(i + 1) % 3]]
 
 
 def nontrivial(doc: dict) -> bool:
@@ -162,14 +164,14 @@ def run(ctx: Ctx) -> int:
     tlc.model_check(ctx, "Fpef", f"Fpef_c05_mc_{tier}", vacuity_ignore=("Emit", "Save", "Reload", "Resave"))
     gen = generated_docs(ctx, f"Fpef_gen_{tier}")
     rng = random.Random(ctx.seed * 1000003 + 5)
-    budget = 2600 if tier == "quick" else 12000
+    budget = 1500 if tier == "quick" else 12000
     if len(gen) > budget:     # the model check covers all; replay a seeded sample (all one-module documents kept)
         single = [g for g in gen if len(g["doc"]["mods"]) == 1]
         rest = [g for g in gen if len(g["doc"]["mods"]) != 1]
         picked = single + rng.sample(rest, budget - len(single))
     else:
         picked = gen
-    nrand = 150 if tier == "quick" else 1500
+    nrand = 100 if tier == "quick" else 1500
     rdocs = [random_doc(rng) for _ in range(nrand)]
     # every injection comes from the one definition Fpef!Inject, printed by TLC for the chosen documents
     patches = inject_with_tlc(ctx, [g["doc"] for g in picked] + rdocs)
